@@ -187,9 +187,11 @@ def p1_eq(x, y, tol=1e-7) -> bool:
         if isinstance(v, tuple):
             return complex(v[0]), complex(v[1])
         v = complex(v)
+        if math.isinf(v.real) or math.isinf(v.imag):
+            return 1 + 0j, 0j  # numpy's complex infinity may carry a nan in the other component ((0+5j) / 0 = nan+infj)
         if math.isnan(v.real) or math.isnan(v.imag):
             return None
-        if math.isinf(v.real) or math.isinf(v.imag) or abs(v) > 1e12:
+        if abs(v) > 1e12:
             return 1 + 0j, 0j
         return v, 1 + 0j
 
